@@ -40,7 +40,7 @@ theorem cellAt_set_same {h : Heap} {b : Nat} {buf : List Int} (hb : h[b]? = some
   · subst hqp
     by_cases hp : q < buf.length
     · simp [hp]
-    · simp [hp, List.getElem?_eq_none (Nat.le_of_not_lt hp)]
+    · simp [hp]
   · simp [List.getElem?_set_ne hqp, hqp]
 
 theorem cellAt_other {h h' : Heap} {b : Nat} (hb : h'[b]? = h[b]?) (p : Nat) : cellAt h' b p = cellAt h b p := by
@@ -167,5 +167,264 @@ theorem foldl_storeSpec_zip (q : Nat → Nat) (d : Nat → Int) (n : Nat) (l : L
   unfold PyList.setZip
   rw [zip_map_map, List.foldl_map, ← List.range_eq_range']
   rfl
+
+end ImathVerif.FixedArray
+
+namespace ImathVerif.FixedArray
+open ImathVerif
+
+theorem View.WF.writeSliceElem_eq {sh : List Nat} {v : View} (w : v.WF sh) {s : SliceIdx} {i : Nat}
+    (hlt : s.at i < v.length) (x : Int) (h1 : Heap) :
+    v.writeSliceElem s x i h1 = h1.wr v.buf (v.cellPos (s.at i)) x := by
+  unfold View.writeSliceElem
+  rw [w.sliceElemPos hlt]
+
+/-- **`a[start:stop:step] = x`** through any well-formed writable view (dense, strided or masked):
+    the view afterwards reads as the Python list after `for k in range(len)[slice]: l[k] = x`,
+    and no cell outside the selected ones changes. -/
+theorem setitemScalar_slice_refines {h : Heap} {v : View} (w : v.WF (shape h)) (hw : v.writable = true)
+    {a b c : Option Int} (hc : ∀ y, c = some y → -PY_SSIZE_T_MAX ≤ y) {s : SliceIdx}
+    (hs : extractSliceIndices v.length (.slice a b c) = .ok s) (x : Int) :
+    ∃ h', setitemScalar h v (.slice a b c) x = .ok h' ∧ shape h' = shape h ∧ Frame v.buf h h' ∧
+      PyList.setsliceScalar (v.toList h) a b c x = some (v.toList h') ∧
+      (∀ p, (∀ i, i < s.slicelength → v.cellPos (s.at i) ≠ p) → cellAt h' v.buf p = cellAt h v.buf p) := by
+  have hat : ∀ i, i < s.slicelength → s.at i < v.length := fun i hi => slice_at_lt' w.lenOk hs i hi
+  obtain ⟨h', hl, hsh, hfr, htl, hcell⟩ :=
+    store_loop_refines (v := v) s.at (fun _ => x) (fun _ => true) s.slicelength 0 h w
+      (fun i _ hi _ => hat i (by omega))
+  have hcongr : forLoop (v.writeSliceElem s x) s.slicelength 0 h
+      = forLoop (storeBody v s.at (fun _ => x) (fun _ => true)) s.slicelength 0 h := by
+    apply forLoop_congr (fun h1 => True) _ _ _ _ _ trivial
+    · intro i h1 _ hi _
+      simp only [storeBody, if_true]
+      exact w.writeSliceElem_eq (hat i (by omega)) x h1
+    · intros; trivial
+  refine ⟨h', ?_, hsh, hfr, ?_, fun p hp => hcell p (fun i _ hi _ => hp i (by omega))⟩
+  · unfold setitemScalar
+    simp only [hw, Bool.not_true, Bool.false_eq_true, if_false, hs, hcongr, hl]
+  · unfold PyList.setsliceScalar
+    rw [View.toList_length, extract_slice_spec w.lenOk hc hs, htl, foldl_storeSpec_const]
+    rfl
+
+/-- **`a[start:stop:step] = b`** (array right-hand side in another allocation): lengths must match
+    (`IndexError` otherwise, see `setitemVector_length_error`), then the view reads as the list after the
+    extended-slice assignment. -/
+theorem setitemVector_slice_refines {h : Heap} {v data : View} (w : v.WF (shape h)) (wd : data.WF (shape h))
+    (hw : v.writable = true) (hne : data.buf ≠ v.buf)
+    {a b c : Option Int} (hc : ∀ y, c = some y → -PY_SSIZE_T_MAX ≤ y) {s : SliceIdx}
+    (hs : extractSliceIndices v.length (.slice a b c) = .ok s) (hlen : data.length = s.slicelength) :
+    ∃ h', setitemVector h v (.slice a b c) data = .ok h' ∧ shape h' = shape h ∧ Frame v.buf h h' ∧
+      PyList.setsliceVector (v.toList h) a b c (data.toList h) = some (v.toList h') ∧
+      (∀ p, (∀ i, i < s.slicelength → v.cellPos (s.at i) ≠ p) → cellAt h' v.buf p = cellAt h v.buf p) := by
+  have hat : ∀ i, i < s.slicelength → s.at i < v.length := fun i hi => slice_at_lt' w.lenOk hs i hi
+  let d : Nat → Int := fun i => cellAt h data.buf (data.cellPos i)
+  obtain ⟨h', hl, hsh, hfr, htl, hcell⟩ :=
+    store_loop_refines (v := v) s.at d (fun _ => true) s.slicelength 0 h w (fun i _ hi _ => hat i (by omega))
+  have hcongr : forLoop (v.writeSliceFrom s data) s.slicelength 0 h
+      = forLoop (storeBody v s.at d (fun _ => true)) s.slicelength 0 h := by
+    apply forLoop_congr (fun h1 => h1[data.buf]? = h[data.buf]?) _ _ _ _ _ rfl
+    · intro i h1 _ hi hp
+      simp only [storeBody, if_true, View.writeSliceFrom]
+      rw [View.get_congr hp, wd.get (by omega)]
+      exact w.writeSliceElem_eq (hat i (by omega)) _ h1
+    · intro i h1 h2 hp hb
+      rw [(storeBody_frame hb).2 _ hne]; exact hp
+  refine ⟨h', ?_, hsh, hfr, ?_, fun p hp => hcell p (fun i _ hi _ => hp i (by omega))⟩
+  · unfold setitemVector
+    have : ¬ (data.length ≠ s.slicelength) := by simp [hlen]
+    simp only [hw, Bool.not_true, Bool.false_eq_true, if_false, hs, this, hcongr, hl]
+  · unfold PyList.setsliceVector
+    rw [View.toList_length, extract_slice_spec w.lenOk hc hs]
+    simp only [List.length_map, List.length_range, View.toList_length, hlen, if_true]
+    rw [htl, foldl_storeSpec_zip]
+    simp only [View.toList, hlen, d]
+
+theorem foldl_storeSpec_filter (q : Nat → Nat) (val : Nat → Int) (c : Nat → Bool) (n : Nat) (l : List Int) :
+    (List.range' 0 n).foldl (storeSpec q val c) l
+      = ((List.range n).filter c).foldl (fun l i => l.set (q i) (val i)) l := by
+  rw [List.foldl_filter, ← List.range_eq_range']
+  rfl
+
+/-- **`a[mask] = x`** on an unmasked array, mask in another allocation and of the same length -/
+theorem setitemScalarMask_refines {h : Heap} {v mask : View} (w : v.WF (shape h)) (wm : mask.WF (shape h))
+    (hw : v.writable = true) (hun : v.indices = none) (hne : mask.buf ≠ v.buf) (hlen : mask.length = v.length)
+    (x : Int) :
+    ∃ h', setitemScalarMask h v mask x = .ok h' ∧ shape h' = shape h ∧ Frame v.buf h h' ∧
+      v.toList h' = PyList.setMaskScalar (v.toList h) (mask.toList h) x := by
+  let bits := mask.toList h
+  let c : Nat → Bool := fun i => bits[i]! != 0
+  obtain ⟨h', hl, hsh, hfr, htl, _⟩ :=
+    store_loop_refines (v := v) id (fun _ => x) c v.length 0 h w (fun i _ hi _ => by simpa using hi)
+  have hcp : ∀ i, v.cellPos i = v.pos i := by intro i; simp [View.cellPos, View.rawOf, hun]
+  have hcongr : forLoop (v.writeIfMask mask x) v.length 0 h = forLoop (storeBody v id (fun _ => x) c) v.length 0 h := by
+    apply forLoop_congr (fun h1 => h1[mask.buf]? = h[mask.buf]?) _ _ _ _ _ rfl
+    · intro i h1 _ hi hp
+      have hi' : i < mask.length := by omega
+      simp only [storeBody, View.writeIfMask, id]
+      rw [View.get_congr hp, wm.get hi', hcp]
+      have : bits[i]! = cellAt h mask.buf (mask.cellPos i) := by
+        have := View.toList_getElem? h mask i hi'
+        simp [bits, getElem!_def, this]
+      simp only [c, this]
+    · intro i h1 h2 hp hb
+      rw [(storeBody_frame hb).2 _ hne]; exact hp
+  refine ⟨h', ?_, hsh, hfr, ?_⟩
+  · unfold setitemScalarMask
+    have hm : v.isMasked = false := by simp [View.isMasked, hun]
+    have hmd : matchDimension v mask.length false = .ok v.length := by simp [matchDimension, hlen]
+    simp only [hw, Bool.not_true, Bool.false_eq_true, if_false, hmd, hm, hcongr, hl]
+  · rw [htl, foldl_storeSpec_filter]
+    unfold PyList.setMaskScalar PyList.setEach PyList.maskPositions
+    have : (mask.toList h).length = v.length := by rw [View.toList_length, hlen]
+    rw [this]
+    rfl
+
+/-- **`a[mask] = b`** with `len(b) == len(a)`: `a[i] = b[i]` wherever `mask[i]` -/
+theorem setitemVectorMask_same_refines {h : Heap} {v mask data : View} (w : v.WF (shape h))
+    (wm : mask.WF (shape h)) (wd : data.WF (shape h)) (hw : v.writable = true) (hun : v.indices = none)
+    (hnm : mask.buf ≠ v.buf) (hnd : data.buf ≠ v.buf) (hlen : mask.length = v.length)
+    (hdl : data.length = v.length) :
+    ∃ h', setitemVectorMask h v mask data = .ok h' ∧ shape h' = shape h ∧ Frame v.buf h h' ∧
+      v.toList h' = PyList.setMaskSame (v.toList h) (mask.toList h) (data.toList h) := by
+  let bits := mask.toList h
+  let c : Nat → Bool := fun i => bits[i]! != 0
+  let d : Nat → Int := fun i => cellAt h data.buf (data.cellPos i)
+  obtain ⟨h', hl, hsh, hfr, htl, _⟩ :=
+    store_loop_refines (v := v) id d c v.length 0 h w (fun i _ hi _ => by simpa using hi)
+  have hcp : ∀ i, v.cellPos i = v.pos i := by intro i; simp [View.cellPos, View.rawOf, hun]
+  have hcongr : forLoop (v.writeIfMaskFrom mask data) v.length 0 h = forLoop (storeBody v id d c) v.length 0 h := by
+    apply forLoop_congr (fun h1 => h1[mask.buf]? = h[mask.buf]? ∧ h1[data.buf]? = h[data.buf]?) _ _ _ _ _ ⟨rfl, rfl⟩
+    · intro i h1 _ hi hp
+      have hi' : i < mask.length := by omega
+      have hi2 : i < data.length := by omega
+      simp only [storeBody, View.writeIfMaskFrom, id]
+      rw [View.get_congr hp.1, wm.get hi', View.get_congr hp.2, wd.get hi2, hcp]
+      have : bits[i]! = cellAt h mask.buf (mask.cellPos i) := by
+        have := View.toList_getElem? h mask i hi'
+        simp [bits, getElem!_def, this]
+      simp only [c, this, d]
+    · intro i h1 h2 hp hb
+      have hf := storeBody_frame hb
+      exact ⟨by rw [hf.2 _ hnm]; exact hp.1, by rw [hf.2 _ hnd]; exact hp.2⟩
+  refine ⟨h', ?_, hsh, hfr, ?_⟩
+  · unfold setitemVectorMask
+    have hm : v.isMasked = false := by simp [View.isMasked, hun]
+    have hmd : matchDimension v mask.length = .ok v.length := by simp [matchDimension, hlen]
+    simp only [hw, Bool.not_true, Bool.false_eq_true, if_false, hmd, hm, hdl, if_true, hcongr, hl]
+  · rw [htl, foldl_storeSpec_filter]
+    unfold PyList.setMaskSame PyList.setZip PyList.maskPositions
+    have hml : (mask.toList h).length = v.length := by rw [View.toList_length, hlen]
+    rw [hml]
+    have hpick : PyList.pick (data.toList h) ((List.range v.length).filter c)
+        = ((List.range v.length).filter c).map d := by
+      apply pick_map_of_lt
+      intro j hj
+      have hj' : j < data.length := by
+        have := (List.mem_filter.1 hj).1; simp at this; omega
+      exact View.toList_getElem? h data j hj'
+    show _ = List.foldl _ _ (((List.range v.length).filter c).zip (PyList.pick (data.toList h) ((List.range v.length).filter c)))
+    rw [hpick]
+    have : ((List.range v.length).filter c).zip (((List.range v.length).filter c).map d)
+        = ((List.range v.length).filter c).map (fun i => (i, d i)) := by
+      have := zip_map_map ((List.range v.length).filter c) id d
+      simpa using this
+    rw [this, List.foldl_map]
+    rfl
+
+/-- length mismatch in `a[slice] = b`: `IndexError`, and (being an error) nothing is written -/
+theorem setitemVector_length_error {h : Heap} {v data : View} (hw : v.writable = true) {idx : PyIdx} {s : SliceIdx}
+    (hs : extractSliceIndices v.length idx = .ok s) (hlen : data.length ≠ s.slicelength) :
+    setitemVector h v idx data = .error .srcDimMismatch := by
+  unfold setitemVector
+  simp [hw, hs, hlen]
+
+end ImathVerif.FixedArray
+
+namespace ImathVerif.FixedArray
+open ImathVerif
+
+/-- **`a[i] = x`** for an int `i` of any sign -/
+theorem setitemScalar_int_refines {h : Heap} {v : View} (w : v.WF (shape h)) (hw : v.writable = true)
+    (i : Int) (x : Int) :
+    (∀ k, canonicalIndex v.length i = .ok k →
+      ∃ h', setitemScalar h v (.int i) x = .ok h' ∧ shape h' = shape h ∧ Frame v.buf h h' ∧
+        v.toList h' = (v.toList h).set k x) ∧
+    (∀ e, canonicalIndex v.length i = .error e → setitemScalar h v (.int i) x = .error .indexError) := by
+  constructor
+  · intro k hk
+    have hs : extractSliceIndices v.length (.int i) = .ok ⟨k, k + 1, 1, 1⟩ := by
+      simp [extractSliceIndices, hk]
+    have hklt := canonicalIndex_lt hk
+    have hn64 : (v.length : Int) < 18446744073709551616 := by
+      have := w.lenOk; unfold PY_SSIZE_T_MAX at this; omega
+    have hat0 : (⟨k, k + 1, 1, 1⟩ : SliceIdx).at 0 = k := by
+      unfold SliceIdx.at
+      simp only [Int.natCast_zero, Int.zero_mul, Int.add_zero]
+      rw [wrap64_of_range (by omega) (by omega)]; simp
+    obtain ⟨h', hl, hsh, hfr, htl, _⟩ :=
+      store_loop_refines (v := v) (fun _ => k) (fun _ => x) (fun _ => true) 1 0 h w (fun _ _ _ _ => hklt)
+    refine ⟨h', ?_, hsh, hfr, ?_⟩
+    · unfold setitemScalar
+      simp only [hw, Bool.not_true, Bool.false_eq_true, if_false, hs]
+      have : forLoop (v.writeSliceElem ⟨k, k + 1, 1, 1⟩ x) 1 0 h
+          = forLoop (storeBody v (fun _ => k) (fun _ => x) (fun _ => true)) 1 0 h := by
+        apply forLoop_congr (fun _ => True) _ _ _ _ _ trivial
+        · intro j h1 _ hj _
+          have : j = 0 := by omega
+          subst this
+          simp only [storeBody, if_true]
+          rw [w.writeSliceElem_eq (by rw [hat0]; exact hklt) x h1, hat0]
+        · intros; trivial
+      rw [this, hl]
+    · rw [htl]; simp [storeSpec]
+  · intro e he
+    unfold setitemScalar
+    simp [hw, extractSliceIndices, he, (canonicalIndex_error he).1]
+
+theorem ifelse_getElem {choice l other : List Int} {n : Nat} (h1 : choice.length = n) (h2 : l.length = n)
+    (h3 : other.length = n) :
+    PyList.ifelse choice l other
+      = (List.range n).map (fun (i : Nat) => if choice[i]! != 0 then l[i]! else other[i]!) := by
+  unfold PyList.ifelse
+  apply List.ext_getElem
+  · simp [h1, h2, h3]
+  · intro i hi hi'
+    simp at hi hi'
+    have a1 : i < choice.length := by omega
+    have a2 : i < l.length := by omega
+    have a3 : i < other.length := by omega
+    simp [List.getElem_zip, getElem!_pos, a1, a2, a3]
+
+/-- **`a.ifelse(choice, other)`** on a WRITABLE array (see `ifelse_readonly_quirk` for read-only ones):
+    a fresh array `[a[i] if choice[i] else other[i]]` -/
+theorem ifelseVector_refines {h : Heap} {v choice other : View} (w : v.WF (shape h)) (wc : choice.WF (shape h))
+    (wo : other.WF (shape h)) (hw : v.writable = true) (hl1 : choice.length = v.length)
+    (hl2 : other.length = v.length) :
+    ∃ h' f, ifelseVector h v choice other = .ok (h', f) ∧
+      f.toList h' = PyList.ifelse (choice.toList h) (v.toList h) (other.toList h) ∧
+      f.WF (shape h') ∧ f.buf = h.length ∧ (∃ vals, h' = h ++ [vals]) := by
+  let g : Nat → Int := fun i =>
+    if cellAt h choice.buf (choice.cellPos i) != 0 then cellAt h v.buf (v.cellPos i)
+    else cellAt h other.buf (other.cellPos i)
+  have hread : mapE (v.chooseFrom h choice other) (List.range v.length) = .ok ((List.range v.length).map g) := by
+    apply mapE_ok_of_forall
+    intro i hi
+    have hi' : i < v.length := by simpa using hi
+    simp only [View.chooseFrom, wc.get (by omega : i < choice.length), View.getNonConst, hw, Bool.not_true,
+      Bool.false_eq_true, if_false, w.get hi', wo.get (by omega : i < other.length), g]
+    split <;> rfl
+  have hlen : (((List.range v.length).map g).length : Int) ≤ PY_SSIZE_T_MAX := by
+    simpa using w.lenOk
+  have hA := alloc_WF h _ hlen
+  refine ⟨_, _, ?_, ?_, hA.1, rfl, ⟨_, rfl⟩⟩
+  · unfold ifelseVector
+    simp only [matchDimension, hl1, hl2, if_true, hread]
+  · rw [hA.2, ifelse_getElem (n := v.length) (by rw [View.toList_length, hl1]) (View.toList_length h v)
+      (by rw [View.toList_length, hl2])]
+    apply List.map_congr_left
+    intro i hi
+    have hi' : i < v.length := by simpa using hi
+    simp [g, getElem!_def, View.toList_getElem? h v i hi', View.toList_getElem? h choice i (by omega),
+      View.toList_getElem? h other i (by omega)]
 
 end ImathVerif.FixedArray
